@@ -1553,16 +1553,16 @@ def type_rows(ctx):
         allk = [i for i, (kk, c) in sorted(fi.items()) if kk == k and whole(i)]
         for i in allk:
             lens.setdefault(len(fi[i][1]), i)
-        for i in (rows[:4] + list(lens.values())[:8] + allk)[:ctx.n(30, 10 ** 6)]:
+        for i in (rows[:4] + list(lens.values())[:8] + allk)[:ctx.n(30, 120)]:    # thorough: capped (the whole catalogue took > 40 min)
             pick.setdefault(i, f'formula {k}')
     for lay in ('n-only', 'nk-only', 'n+k', 'k-only', 'formula+k', 'formula+nk', 'repeated-wavelength'):
         rows = [i for i in st[lay] if whole(i) and max(len(xs) for _, xs in ti[i]) < 3000]
-        for i in rows[:ctx.n(3, 10 ** 6)]:
+        for i in rows[:ctx.n(3, 40)]:
             pick.setdefault(i, 'table ' + lay)
     rng = random.Random(ctx.seed * 37 + 5)
     cand = [i for i in range(len(df)) if i not in pick and i not in bad and whole(i)
             and (i in fi or i not in ti or max(len(xs) for _, xs in ti[i]) < 3000)]
-    for i in rng.sample(cand, min(len(cand), ctx.n(100, len(cand)))):
+    for i in rng.sample(cand, min(len(cand), ctx.n(100, 600))):
         pick.setdefault(i, 'seeded sample')
     return {i: c for i, c in sorted(pick.items()) if i not in bad}
 
